@@ -13,6 +13,23 @@ TRUST = ("numpy/scipy dense linear algebra used by the reference model; the harn
 
 # id -> (category, technique, level text, level note, design ref)
 CHECKS = {
+    "C01": ("exploration",
+            "reference-model monitor: real Mpo construction (3 algorithms) and try_swap_site walks on generated term "
+            "tables, compared with an independent dense sum of Kronecker products",
+            "Randomised + structured term tables over mixed basis kinds; every case is built with qr, Hopcroft-Karp and "
+            "Hungarian and compared entry-wise with the dense reference, then walked through random adjacent swaps with "
+            "each decomposition algorithm. Held on the executions observed; evidence lists input classes and worst errors.",
+            "local matrices from BasisSet.op_mat (judged by C16); dims <= 1024; uint16 table limits out of reach",
+            "DESIGN.md section 3 / C01"),
+    "C20": ("exploration",
+            "icontract postcondition on bipartite_vertex_cover at every call site + hook on _decompose_graph + "
+            "small-scope exhaustive enumeration of graphs, against the harness's own maximum matching / brute force",
+            "All 69904 labelled graphs with |U|<=4, V<4 enumerated (thorough; exhaustive: true), random graphs to 40x40, "
+            "every construction step of generated term tables observed through a hook, and bond_dims compared with the "
+            "minimum cover of the harness's own term table at every cut.",
+            "Koenig's theorem (minimum cover = maximum matching) computed by the harness's Kuhn matching, cross-checked "
+            "by brute force for |U|<=10",
+            "DESIGN.md section 3 / C20"),
     "C19": ("exploration",
             "exhaustive runtime evaluation of Butcher order conditions on the objects the real constructors return, "
             "plus measured convergence order of each tableau on non-linear ODEs (reference-model monitor)",
